@@ -36,6 +36,18 @@ theorem toposort_fuel_irrelevant (pick : List Comp → List Comp) (g : Graph) (f
   simp only [toposort]
   rw [levels_fuel pick _ f _ (Nat.le_refl _) hf]
 
+/-- completeness: every acyclic graph (self-dependencies do not count, as in the code) IS sorted —
+so the theorems below are not vacuous for any graph in the property's quantifier -/
+theorem toposort_complete (pick : List Comp → List Comp) (g : Graph) (rank : Comp → Nat)
+    (hr : ∀ c ds, (c, ds) ∈ g → ∀ d ∈ ds, d ≠ c → rank d < rank c) :
+    ∃ o, toposort pick g = some o := by
+  have := levels_complete pick rank (prepare g).length (prepare g) (Nat.le_refl _)
+    (prepare_depsAreKeys g) (prepare_ranked rank g hr)
+  simp only [toposort]
+  cases hl : levels pick (prepare g).length (prepare g) with
+  | none => simp [hl] at this
+  | some ls => exact ⟨ls.flatten, rfl⟩
+
 /-- at most once: the attempts of a run over a duplicate-free order are duplicate-free, and a
 component is attempted only if it was not in the broker, is in the graph, is registered and enabled -/
 theorem attempt_once (w : World) (inG : Comp → Bool) (ss : Bool) (o : List Comp) (seed : Inst)
